@@ -189,7 +189,7 @@ class List(ConvexRegion):
     return self._shape[0]*self._shape[1]
 
   def project(self, point):
-    point = np.array(point)
+    point = np.array(point, dtype=float)
     if point.shape != self._shape:
       raise ValueError("Wrong shape. Given %s, require %s" % (str(point.shape), str(self._shape)))
     for i, r in enumerate(self._regions):
